@@ -341,7 +341,7 @@ func (fv *FuncVC) specIndex(base, idx Val, sc *SpecScope) Val {
 			specFail("index on slice of unknown type")
 		}
 		es := fv.th.sortOf(et)
-		h := fv.declSliceHeap(es)
+		h := fv.declSliceHeapT(et)
 		return Val{sx("select", sx("select", sc.heap(h), sx("sl_ref", base.T)), idx.T), es, et}
 	}
 	if base.S == SRef && base.GoT != nil {
@@ -509,7 +509,7 @@ func (fv *FuncVC) specCall(x *SCall, sc *SpecScope) Val {
 			a := args()[0]
 			et := elemType(a.GoT)
 			es := th.sortOf(et)
-			h := fv.declSliceHeap(es)
+			h := fv.declSliceHeapT(et)
 			return Val{sx("select", sc.heap(h), sx("sl_ref", a.T)), arraySort(SInt, es), types.NewMap(it, et)}
 		case "domain":
 			m := args()[0]
@@ -602,8 +602,8 @@ func (fv *FuncVC) specCall(x *SCall, sc *SpecScope) Val {
 					specFail("framedField: no field %s", fname)
 				}
 			case "framedElems":
-				es, _ := sc.parseSpecType(x.Args[0].String())
-				h = fv.declSliceHeap(es)
+				_, et := sc.parseSpecType(x.Args[0].String())
+				h = fv.declSliceHeapT(et)
 			case "framedGhost":
 				h = "G$" + x.Args[0].(*SStrLit).V
 				fv.heapDecl(h, arraySort(SRef, SInt))
